@@ -5,6 +5,9 @@ import Verif.Model.LeanMark.Html
   * `leanmark-html`    : `<hex document>` → `<hex HTML>`
   * `leanmark-events`  : `<hex document>` → serialised event stream with positions
   * `leanmark-inscope` : `<hex document>` → `1` / `0`
+  * `leanmark-amb`     : `<hex document>` → `0` if the four readings of the specification (Block.lean `Reading`)
+                         give the same event stream, else the indices of the deviating readings, e.g. `13`
+  * `leanmark-html-r<i>`, `leanmark-events-r<i>` (i = 1, 2, 3): the same under reading i
 
   Event stream: events separated by `;`, fields by `,`; strings are hex fields (space separated code points).
     `O,<kind>,<line>,<col>`                         kind = `quote` | `ul:<bullet cp>` | `ol:<delim cp>:<start>` | `li`
@@ -70,13 +73,29 @@ def evStr (refs : RefMap) : Ev → List String
     | .heading .. => head :: (parseInlines refs payload).map ievStr
     | _ => [head]
 
-def eventsStr (doc : List Char) : String :=
-  let evs := events (docLines doc)
+def eventsStrR (rd : Reading) (doc : List Char) : String :=
+  let evs := eventsR rd (docLines doc)
   let refs := refMapOf evs
   ";".intercalate (evs.flatMap (evStr refs))
 
+def eventsStr (doc : List Char) : String := eventsStrR {} doc
+
+/-- the four readings of the specification (Block.lean `Reading`), index = lazyList + 2 * lrdNoPara. -/
+def readings : List Reading :=
+  [{}, { lazyList := true }, { lrdNoPara := true }, { lazyList := true, lrdNoPara := true }]
+
 def stepHtml (line : String) : String := Proto.encodeField (html (Proto.decodeField line))
 def stepEvents (line : String) : String := eventsStr (Proto.decodeField line)
+def stepHtmlR (i : Nat) (line : String) : String :=
+  Proto.encodeField (htmlR (readings.getD i {}) (Proto.decodeField line))
+def stepEventsR (i : Nat) (line : String) : String := eventsStrR (readings.getD i {}) (Proto.decodeField line)
+/-- `0` = all readings give the same event stream (the document is unambiguous); otherwise the indices (1..3)
+    of the readings whose stream differs from the default one. -/
+def stepAmb (line : String) : String :=
+  let doc := Proto.decodeField line
+  let base := eventsStrR {} doc
+  let diff := [1, 2, 3].filter fun i => eventsStrR (readings.getD i {}) doc != base
+  if diff.isEmpty then "0" else "".intercalate (diff.map toString)
 def stepInScope (line : String) : String := if InScope (Proto.decodeField line) then "1" else "0"
 
 end Verif.Drv.LeanMark
